@@ -1,5 +1,6 @@
 //! Container models (DESIGN 2.2): Vec-backed, API-compatible stand-ins for
-//! `std::collections::HashMap` / `HashSet` used ONLY in the verification build,
+//! `std::collections::HashMap` / `HashSet` used ONLY in the verification build
+//! (fixed capacity, linear search),
 //! in the files listed by `//@@ rewrite:` lines of the harness files.  Hash
 //! tables are out of reach for CBMC (SipHash + random keys + probing); these
 //! models implement the same finite-map semantics with linear search.
@@ -9,34 +10,50 @@
 
 use std::borrow::Borrow;
 
+/// Capacity of the model map.  The entries live INLINE in the struct (a fixed
+/// array), not in a heap Vec: CBMC keeps enum payloads of stack objects constant
+/// but loses them for heap objects, after which every lookup is explored for
+/// every variant of the stored enum (measured: the same harness goes from a
+/// 900 s timeout to seconds).
+pub const CAP: usize = 6;
+
 #[derive(Clone, Debug)]
 pub struct HashMap<K, V> {
-  items: Vec<(K, V)>,
+  items: [Option<(K, V)>; CAP],
+  len: usize,
 }
 
 impl<K, V> Default for HashMap<K, V> {
   fn default() -> Self {
-    HashMap { items: Vec::new() }
+    HashMap {
+      items: [None, None, None, None, None, None],
+      len: 0,
+    }
+  }
+}
+
+fn split<'b, K, V>(kv: &'b Option<(K, V)>) -> Option<(&'b K, &'b V)> {
+  match kv {
+    Some((k, v)) => Some((k, v)),
+    None => None,
   }
 }
 
 impl<K: Eq, V> HashMap<K, V> {
   pub fn new() -> Self {
-    HashMap { items: Vec::new() }
+    Self::default()
   }
 
-  pub fn with_capacity(n: usize) -> Self {
-    HashMap {
-      items: Vec::with_capacity(n),
-    }
+  pub fn with_capacity(_n: usize) -> Self {
+    Self::default()
   }
 
   pub fn len(&self) -> usize {
-    self.items.len()
+    self.len
   }
 
   pub fn is_empty(&self) -> bool {
-    self.items.is_empty()
+    self.len == 0
   }
 
   fn position<Q: ?Sized + Eq>(&self, k: &Q) -> Option<usize>
@@ -44,9 +61,11 @@ impl<K: Eq, V> HashMap<K, V> {
     K: Borrow<Q>,
   {
     let mut i = 0;
-    while i < self.items.len() {
-      if self.items[i].0.borrow() == k {
-        return Some(i);
+    while i < self.len {
+      if let Some((key, _)) = &self.items[i] {
+        if key.borrow() == k {
+          return Some(i);
+        }
       }
       i += 1;
     }
@@ -58,7 +77,7 @@ impl<K: Eq, V> HashMap<K, V> {
     K: Borrow<Q>,
   {
     match self.position(k) {
-      Some(i) => Some(&self.items[i].1),
+      Some(i) => self.items[i].as_ref().map(|kv| &kv.1),
       None => None,
     }
   }
@@ -68,7 +87,7 @@ impl<K: Eq, V> HashMap<K, V> {
     K: Borrow<Q>,
   {
     match self.position(k) {
-      Some(i) => Some(&mut self.items[i].1),
+      Some(i) => self.items[i].as_mut().map(|kv| &mut kv.1),
       None => None,
     }
   }
@@ -80,11 +99,22 @@ impl<K: Eq, V> HashMap<K, V> {
     self.position(k).is_some()
   }
 
+  fn push(&mut self, k: K, v: V) -> usize {
+    assert!(self.len < CAP, "verification map model capacity exceeded");
+    let at = self.len;
+    self.items[at] = Some((k, v));
+    self.len += 1;
+    at
+  }
+
   pub fn insert(&mut self, k: K, v: V) -> Option<V> {
     match self.position(&k) {
-      Some(i) => Some(std::mem::replace(&mut self.items[i].1, v)),
+      Some(i) => match self.items[i].as_mut() {
+        Some(kv) => Some(std::mem::replace(&mut kv.1, v)),
+        None => None,
+      },
       None => {
-        self.items.push((k, v));
+        self.push(k, v);
         None
       }
     }
@@ -95,7 +125,17 @@ impl<K: Eq, V> HashMap<K, V> {
     K: Borrow<Q>,
   {
     match self.position(k) {
-      Some(i) => Some(self.items.remove(i).1),
+      Some(i) => {
+        let out = self.items[i].take();
+        // keep the occupied slots contiguous
+        let mut j = i;
+        while j + 1 < self.len {
+          self.items[j] = self.items[j + 1].take();
+          j += 1;
+        }
+        self.len -= 1;
+        out.map(|kv| kv.1)
+      }
       None => None,
     }
   }
@@ -110,31 +150,28 @@ impl<K: Eq, V> HashMap<K, V> {
   }
 
   pub fn iter(&self) -> impl Iterator<Item = (&K, &V)> {
-    self.items.iter().map(|(k, v)| (k, v))
-  }
-
-  pub fn iter_mut(&mut self) -> impl Iterator<Item = (&K, &mut V)> {
-    self.items.iter_mut().map(|(k, v)| (&*k, v))
+    self.items.iter().filter_map(split)
   }
 
   pub fn keys(&self) -> impl Iterator<Item = &K> {
-    self.items.iter().map(|(k, _)| k)
+    self.iter().map(|(k, _)| k)
   }
 
   pub fn values(&self) -> impl Iterator<Item = &V> {
-    self.items.iter().map(|(_, v)| v)
+    self.iter().map(|(_, v)| v)
   }
 
   pub fn values_mut(&mut self) -> impl Iterator<Item = &mut V> {
-    self.items.iter_mut().map(|(_, v)| v)
-  }
-
-  pub fn retain<F: FnMut(&K, &mut V) -> bool>(&mut self, mut f: F) {
-    self.items.retain_mut(|(k, v)| f(k, v));
+    self.items.iter_mut().filter_map(|o| o.as_mut().map(|kv| &mut kv.1))
   }
 
   pub fn clear(&mut self) {
-    self.items.clear();
+    let mut i = 0;
+    while i < CAP {
+      self.items[i] = None;
+      i += 1;
+    }
+    self.len = 0;
   }
 }
 
@@ -146,13 +183,13 @@ pub struct Entry<'a, K, V> {
 
 impl<'a, K: Eq, V> Entry<'a, K, V> {
   pub fn or_insert_with<F: FnOnce() -> V>(self, f: F) -> &'a mut V {
-    match self.pos {
-      Some(i) => &mut self.map.items[i].1,
-      None => {
-        self.map.items.push((self.key.unwrap(), f()));
-        let n = self.map.items.len();
-        &mut self.map.items[n - 1].1
-      }
+    let at = match self.pos {
+      Some(i) => i,
+      None => self.map.push(self.key.unwrap(), f()),
+    };
+    match self.map.items[at].as_mut() {
+      Some(kv) => &mut kv.1,
+      None => unreachable!(),
     }
   }
 
@@ -170,20 +207,17 @@ impl<'a, K: Eq, V> Entry<'a, K, V> {
 
 impl<K, V> IntoIterator for HashMap<K, V> {
   type Item = (K, V);
-  type IntoIter = std::vec::IntoIter<(K, V)>;
+  type IntoIter = std::iter::Flatten<std::array::IntoIter<Option<(K, V)>, CAP>>;
   fn into_iter(self) -> Self::IntoIter {
-    self.items.into_iter()
+    self.items.into_iter().flatten()
   }
 }
 
 impl<'a, K, V> IntoIterator for &'a HashMap<K, V> {
   type Item = (&'a K, &'a V);
-  type IntoIter = std::iter::Map<std::slice::Iter<'a, (K, V)>, fn(&'a (K, V)) -> (&'a K, &'a V)>;
+  type IntoIter = std::iter::FilterMap<std::slice::Iter<'a, Option<(K, V)>>, fn(&'a Option<(K, V)>) -> Option<(&'a K, &'a V)>>;
   fn into_iter(self) -> Self::IntoIter {
-    fn split<'b, K, V>(kv: &'b (K, V)) -> (&'b K, &'b V) {
-      (&kv.0, &kv.1)
-    }
-    self.items.iter().map(split as fn(&'a (K, V)) -> (&'a K, &'a V))
+    self.items.iter().filter_map(split as fn(&'a Option<(K, V)>) -> Option<(&'a K, &'a V)>)
   }
 }
 
